@@ -2,27 +2,73 @@ import LekkerVerif.Properties.C16
 
 /-! # C07 — after any edit history the solver equals a freshly built one
 
-The consistency invariant of the three redundant solver views and the per-structure tables, its
-preservation, and concrete cut / remove / re-add histories evaluated in the kernel.  The proof that
-`cut_structure` and `remove_structure` preserve `WInv` for *every* state is not finished (see
-DESIGN.md); those operations are tied step by step to the real solver by the correspondence run. -/
+`WInv` is the mutual consistency of the three redundant solver views (`connections`,
+`connections_list`, `free_pins`) and of every structure's own tables (`pin_list`, `conn_dict`,
+`connected_to`).  It is preserved by *every* wiring call — add, connect, cut, remove, expose — in
+every consistent state (`Wiring.step_inv`), hence holds after every history; and in a consistent
+state the reported free pins are **exactly** the unconnected pins of the present structures.
+`Wiring.step` is tied step by step to the real `Solver` by the correspondence run. -/
 
 namespace Wiring
 
 theorem C07_inv_init (pinCounts : List Nat) : WInv (init pinCounts) := init_inv pinCounts
 theorem C07_inv_add (w : W) (inv : WInv w) (i : Nat) : WInv (addStruct w i).1 := addStruct_inv w inv i
 theorem C07_inv_connect (w : W) (inv : WInv w) (p q : Pin) : WInv (connect w p q).1 := connect_inv w inv p q
-
-/-- in a consistent state the free pins are exactly "pins of present structures that are in no connection" (⊆ direction:
-every reported free pin is such a pin, and no pin is reported twice) -/
-theorem C07_free_pins_sound (w : W) (inv : WInv w) :
-    w.free.Nodup ∧ ∀ x ∈ w.free, x.1 ∈ w.structs ∧ (∃ o, getObj w x.1 = some o ∧ x.2 ∈ o.pins) ∧
-      x ∉ (w.conns.flatMap fun c => [c.1, c.2]) := by
-  refine ⟨inv.freeNodup, fun x hx => ?_⟩
-  obtain ⟨h1, h2⟩ := inv.freeObj x hx
-  exact ⟨h1, h2, by rw [← inv.clistConns]; exact inv.freeDisj x hx⟩
+theorem C07_inv_cut (w : W) (inv : WInv w) (i : Nat) : WInv (cutStruct w i).1 := cutStruct_inv w inv i
+theorem C07_inv_remove (w : W) (inv : WInv w) (i : Nat) : WInv (removeStruct w i).1 := removeStruct_inv w inv i
 
 def run (ops : List Op) (pins : List Nat) : W := ops.foldl (fun w op => (step w op).1) (init pins)
+
+/-- **every edit history** (any finite sequence of add / re-add / connect / cut / remove / expose calls, valid or
+not) leaves all tables mutually consistent -/
+theorem C07_reachable_inv (pins : List Nat) (ops : List Op) : WInv (run ops pins) :=
+  run_inv ops _ (init_inv pins)
+
+/-- in a consistent state the free pins are **exactly** the pins of present structures that are in no connection,
+each reported once -/
+theorem C07_free_pins_exact (w : W) (inv : WInv w) :
+    w.free.Nodup ∧ ∀ i p, (i, p) ∈ w.free ↔
+      (i ∈ w.structs ∧ (∃ o, getObj w i = some o ∧ p ∈ o.pins) ∧ (i, p) ∉ (w.conns.flatMap fun c => [c.1, c.2])) := by
+  refine ⟨inv.freeNodup, fun i p => ⟨fun hx => ?_, ?_⟩⟩
+  · obtain ⟨h1, h2⟩ := inv.freeObj (i, p) hx
+    exact ⟨h1, h2, by rw [← inv.clistConns]; exact inv.freeDisj _ hx⟩
+  · rintro ⟨hs, ⟨o, ho, hp⟩, hnc⟩
+    rcases inv.freeComplete i hs o ho p hp with h | h
+    · exact h
+    · rw [inv.clistConns] at h; exact absurd h hnc
+
+/-- the same, after every history -/
+theorem C07_free_pins_exact_reachable (pins : List Nat) (ops : List Op) (i p : Nat) :
+    (i, p) ∈ (run ops pins).free ↔
+      (i ∈ (run ops pins).structs ∧ (∃ o, getObj (run ops pins) i = some o ∧ p ∈ o.pins) ∧
+        (i, p) ∉ ((run ops pins).conns.flatMap fun c => [c.1, c.2])) :=
+  (C07_free_pins_exact _ (C07_reachable_inv pins ops)).2 i p
+
+/-- the solver's connection table and the structures' own tables say the same thing, in both directions -/
+theorem C07_tables_agree (w : W) (inv : WInv w) :
+    (∀ c ∈ w.conns, (∃ o, getObj w c.1.1 = some o ∧ (c.1.2, c.2) ∈ o.conn) ∧ (∃ o, getObj w c.2.1 = some o ∧ (c.2.2, c.1) ∈ o.conn)) ∧
+    (∀ i o, getObj w i = some o → ∀ e ∈ o.conn, ((i, e.1), e.2) ∈ w.conns ∨ (e.2, (i, e.1)) ∈ w.conns) :=
+  ⟨inv.connsEntry, inv.entryConn⟩
+
+/-- every connection joins pins of structures that are still present -/
+theorem C07_no_dangling_connection (w : W) (inv : WInv w) : ∀ c ∈ w.conns, c.1.1 ∈ w.structs ∧ c.2.1 ∈ w.structs := by
+  intro c hc
+  have h1 : c.1 ∈ w.clist := (mem_clist_iff inv _).2 ⟨c, hc, Or.inl rfl⟩
+  have h2 : c.2 ∈ w.clist := (mem_clist_iff inv _).2 ⟨c, hc, Or.inr rfl⟩
+  exact ⟨inv.clistStructs _ h1, inv.clistStructs _ h2⟩
+
+/-- **pins freed by a cut can be wired again**: in any consistent state, a pin that faced the cut structure is
+free afterwards and `connect` accepts it with any other free pin of another structure -/
+theorem C07_freed_pins_rewirable (w : W) (inv : WInv w) (i : Nat) (o : SObj) (hs : i ∈ w.structs) (ho : getObj w i = some o)
+    (c : Pin × Pin) (hc : c ∈ w.conns) (hci : c.1.1 = i) (hco : c.2.1 ≠ i) :
+    c.2 ∈ (cutStruct w i).1.free ∧
+    ∀ y ∈ (cutStruct w i).1.free, y.1 ≠ c.2.1 → (connect (cutStruct w i).1 c.2 y).2 = .ok :=
+  cut_freed_rewirable w inv i o hs ho c.2 ((isT_iff w i c.2).2 ⟨c, hc, Or.inl hci, Or.inr rfl⟩) hco
+
+/-- **a structure that was cut can be added again**, with all of its pins free -/
+theorem C07_cut_then_add (w : W) (inv : WInv w) (i : Nat) (o : SObj) (hs : i ∈ w.structs) (ho : getObj w i = some o) :
+    (addStruct (cutStruct w i).1 i).2 = .ok ∧ ∀ p ∈ o.pins, (i, p) ∈ (addStruct (cutStruct w i).1 i).1.free :=
+  cut_then_add w inv i o hs ho
 
 /-- decidable rendering of the consistency the harness checks on the real solver -/
 def consistent (w : W) : Bool :=
@@ -31,8 +77,8 @@ def consistent (w : W) : Bool :=
   w.heap.all (fun e => !w.structs.contains e.1 ||
     e.2.conn.all (fun c => w.conns.contains ((e.1, c.1), c.2) || w.conns.contains (c.2, (e.1, c.1))))
 
-/-- **a structure that was cut can be added and wired again** (the history that failed on the pinned code):
-A–B connected, B cut, B added again, B's freed pin wired to another pin of A -/
+/-- non-vacuity, and the history that failed on the pinned code: A–B connected, B cut, B added again, B's freed
+pin wired to another pin of A -/
 theorem C07_reusable_after_cut :
     let ops := [Op.add 0, .add 1, .connect (0, 1) (1, 0), .cut 1, .add 1, .connect (1, 0) (0, 0)]
     (ops.foldl (fun (acc : W × Bool) op => let r := step acc.1 op; (r.1, acc.2 && r.2 == .ok)) (init [2, 2], true)).2 = true ∧
@@ -45,5 +91,9 @@ theorem C07_cut_vs_remove :
     (run [Op.add 0, .add 1, .connect (0, 1) (1, 0), .remove 1] [2, 2]).free = [(0, 0)] ∧
     (run [Op.add 0, .add 1, .connect (0, 1) (1, 0), .remove 1] [2, 2]).clist = [] ∧
     consistent (run [Op.add 0, .add 1, .connect (0, 1) (1, 0), .remove 1] [2, 2]) = true := by decide
+
+/-- the hypotheses of `C07_freed_pins_rewirable` are met by a concrete reachable state -/
+example : let w := run [Op.add 0, .add 1, .connect (1, 0) (0, 1)] [2, 2]
+    1 ∈ w.structs ∧ ((1, 0), (0, 1)) ∈ w.conns := by decide
 
 end Wiring
